@@ -22,6 +22,10 @@ def run(ctx):
     jobs = []
     for v in sorted(bounds):
         jobs += SL.job(b, "future", v, bounds[v], eb, extra=["--horizon", "20000", "--spurious", "0", "--delay-bounded", "1"], shards=16)
+    # fine tier: every plain (non-volatile, non-atomic) access of the library and the scenario is a scheduling point as well
+    fpb = 1 if q else 2
+    for v in sorted(bounds):
+        jobs += SL.job(b, "future", v, fpb, 0, extra=["--plain", "1", "--horizon", "200000", "--spurious", "0", "--delay-bounded", "1"], shards=2 if q else 16)
     ctx.run_jobs(jobs, parallel=16)
     pb = max(bounds.values())
     cov = SL.coverage(ctx, "scenarios F1-F8 on the real Future/ThreadPool (Future.cpp included into the scenario unit to install pools with queue size 1/2 and to shut the "
@@ -30,8 +34,9 @@ def run(ctx):
                            "client + main on a one-slot queue with one permanent worker. Every schedule with <= %d preemptions and <= %d environment deviation; "
                            "oracle: executed exactly once with the given argument, join/conversion/destructor only after the body finished, converted value, "
                            "isAborted/isFinished, deadlock/livelock verdict of the scheduler, guard allocator (call record), primitive registry (no operation on a destroyed "
-                           "signal), heap balance after pool shutdown" % (pb, eb), {"preemption_bound": pb, "deviation_bound": eb, "preemption_bound_per_variant": bounds})
-    return ctx.finish("model_checking", cov, ["sequential consistency; processor count reported as 1 (pool maximum 3 workers)",
+                           "signal), heap balance after pool shutdown. Fine tier: the same scenarios with every plain memory access as a scheduling point, <= %d preemption(s)" % (pb, eb, fpb),
+                      {"preemption_bound": pb, "deviation_bound": eb, "preemption_bound_per_variant": bounds, "fine_tier_preemption_bound": fpb})
+    return ctx.finish("model_checking", cov, ["sequential consistency; processor count reported as 1 (pool maximum 3 workers)", "switches at blocking points count against the bound (delay bounding)",
                                               "started functions terminate and do not wait on other futures"],
                       tags=["C10", "deadlock", "livelock", "horizon", "primitive", "memory", "crash", "hang"])
 
